@@ -192,13 +192,11 @@ static int json_object_array_move_cb(struct json_object *parent, size_t idx,
 	size_t len = json_object_array_length(parent);
 
 	/**
-	 * If it's the same array parent, it means that we removed
-	 * and element from it, so the length is temporarily reduced
-	 * by 1, which means that if we try to move an element to
-	 * the last position, we need to check the current length + 1
+	 * If it's the same array parent, we already removed the element
+	 * from it, so the length is the one RFC 6902 wants the index to be
+	 * checked against: the last position is the current length.
 	 */
-	if (parent == from->parent)
-		len++;
+	(void)from;
 
 	if (idx > len)
 	{
